@@ -136,7 +136,26 @@ impl<'a> Gen<'a> {
     fn fs_op(&mut self, k: usize, prep_fail_ok: bool) -> Op {
         let mut op = match self.r.below(100) {
             0..=17 => Op::Mkdirat { p: self.path(k, prep_fail_ok), mode: self.mode() },
-            18..=41 => Op::Openat { p: self.path(k, prep_fail_ok), flags: self.open_flags(), mode: self.mode() },
+            18..=22 => {
+                // unnamed temporary file in a directory of the entry (or the side root): created with `mode` although
+                // O_CREAT is absent; ENOTDIR / ENOENT when the entry is no directory, EOPNOTSUPP if the fs cannot
+                let dir = match self.r.below(4) {
+                    0 => PathSpec { dir: DirRef::Root, rel: String::from(".") },
+                    1 => PathSpec { dir: DirRef::Cwd, rel: format!("e{k}") },
+                    _ => PathSpec { dir: DirRef::Root, rel: format!("e{k}") },
+                };
+                let mut flags = sys::O_TMPFILE | if self.r.chance(1, 2) { sys::O_RDWR } else { sys::O_WRONLY };
+                if prep_fail_ok && self.r.chance(1, 12) {
+                    flags = sys::O_TMPFILE; // O_RDONLY: EINVAL
+                }
+                for (bit, num, den) in [(sys::O_EXCL, 1, 4), (sys::O_CLOEXEC, 1, 2), (sys::O_APPEND, 1, 8)] {
+                    if self.r.chance(num, den) {
+                        flags |= bit;
+                    }
+                }
+                Op::Openat { p: dir, flags, mode: self.mode() }
+            }
+            23..=41 => Op::Openat { p: self.path(k, prep_fail_ok), flags: self.open_flags(), mode: self.mode() },
             42..=61 => {
                 let flags = *self.r.pick(&[0, 0, 0, 0x800, 0x1000, 0x2000, 0x4000, 0x400]);
                 let mask = *self.r.pick(&[0x7ffu32, 0x7ff, 0x200, 0x3, 0xfff, 0, 0x8000_0000]);
